@@ -504,3 +504,82 @@ Definition spectrum_of_views {num} (dflt : num) (dv : view num) (mv : view bool)
 Definition spectrum_in_memory_order {num} (dv : view num) (mv : view bool) (folded : bool)
            (labels : option (list string)) (extrap : option num) : spectrum num :=
   mkSpec (v_shape dv) (v_buf dv) (v_buf mv) folded labels extrap.
+
+(* ------------------------------------------------------------------------------------------- *)
+(** * Attributes as the Python objects the caller handed in
+
+    [Spectrum.__new__] stores [data_folded] and [pop_ids] AS GIVEN ([subarr.folded = data_folded],
+    [subarr.pop_ids = pop_ids]): the constructor only tests [if data_folded:] and [len(pop_ids)].  So the
+    [.folded] attribute of a Spectrum is whatever truthy / falsy object the caller used - the singleton True / False,
+    a numpy.bool_ (an element of a boolean array, the result of numpy.all / numpy.any / a comparison), an int, a
+    numpy integer scalar, a float, a 0-d array holding one of these - and [.pop_ids] is any sequence (list, tuple,
+    numpy array of str).  data and mask are converted by numpy.ma.masked_array (dtype=float / bool), so they have
+    one representation only ([spectrum]).
+    What the writers, the readers and the pickler may look at is the TRUTH VALUE of the flag ([truthy], Python's
+    [bool(x)] / [if x:] / [not x]) and the ITEMS of the label sequence - never the identity or the type of the object.
+    [canon] is the canonical form of an object: the [spectrum] with [sp_folded = truthy flag]. *)
+
+Inductive pyflag : Type :=
+| PyBool (b : bool)            (* the singletons True / False *)
+| NpBool (b : bool)            (* numpy.bool_ *)
+| PyInt (z : Z)                (* int *)
+| NpInt (z : Z)                (* numpy integer scalar *)
+| PyFloat (nonzero : bool)     (* float / numpy floating scalar: only x != 0 matters *)
+| Arr0 (f : pyflag).           (* 0-d numpy array holding the scalar *)
+
+(** bool(x): what [if x:] and [not x] test *)
+Fixpoint truthy (f : pyflag) : bool :=
+  match f with
+  | PyBool b | NpBool b => b
+  | PyInt z | NpInt z => negb (Z.eqb z 0)
+  | PyFloat nz => nz
+  | Arr0 g => truthy g
+  end.
+
+(** [x is True]: identity with the singleton *)
+Definition is_True (f : pyflag) : bool := match f with PyBool true => true | _ => false end.
+
+(** Spectrum.__new__:  folded = data_folded if data_folded is not None else False *)
+Definition folded_attr (data_folded : option pyflag) : pyflag :=
+  match data_folded with Some f => f | None => PyBool false end.
+
+(** the container of the pop_ids attribute *)
+Inductive seqkind : Type := SeqList | SeqTuple | SeqNdarray.
+
+Definition with_folded {num} (b : bool) (s : spectrum num) : spectrum num :=
+  mkSpec (sp_shape s) (sp_data s) (sp_mask s) b (sp_labels s) (sp_extrap s).
+
+Record spectrum_obj (num : Type) := mkObj {
+  so_spec : spectrum num;          (* shape, data, mask, the items of pop_ids, extrap_x *)
+  so_folded : pyflag;              (* the object held by .folded *)
+  so_labels_kind : seqkind }.      (* the container held by .pop_ids (irrelevant when pop_ids is None) *)
+Arguments mkObj {num}. Arguments so_spec {num}. Arguments so_folded {num}. Arguments so_labels_kind {num}.
+
+Definition canon {num} (o : spectrum_obj num) : spectrum num := with_folded (truthy (so_folded o)) (so_spec o).
+
+(** Spectrum.to_file on the object: [if not self.folded: 'unfolded' else: 'folded'], [for label in self.pop_ids] *)
+Definition to_file_obj {num} (fmt : nat -> num -> string) (p : nat) (comments : list string) (foldmaskinfo : bool)
+           (o : spectrum_obj num) : string :=
+  to_file fmt p comments foldmaskinfo (canon o).
+
+(** NOT what the code does - a writer that tests [self.folded is True]; see C14_identity_test_writer_refuted *)
+Definition to_file_identity_test {num} (fmt : nat -> num -> string) (p : nat) (comments : list string)
+           (foldmaskinfo : bool) (o : spectrum_obj num) : string :=
+  to_file fmt p comments foldmaskinfo (with_folded (is_True (so_folded o)) (so_spec o)).
+
+(** what a reader returns: Python bool, list *)
+Definition obj_of_read {num} (s : spectrum num) : spectrum_obj num := mkObj s (PyBool (sp_folded s)) SeqList.
+
+(** Spectrum_pickler / Spectrum_unpickler on the object: the reduce tuple carries fs.folded and fs.pop_ids themselves,
+    the constructor stores them as given *)
+Definition reduce_args_obj (num : Type) : Type :=
+  (array num * array bool * pyflag * (seqkind * option (list string)) * option num)%type.
+
+Definition spectrum_pickler_obj {num} (o : spectrum_obj num) : reduce_args_obj num :=
+  let s := so_spec o in
+  (mkArray (sp_shape s) (sp_data s), mkArray (sp_shape s) (sp_mask s), so_folded o,
+   (so_labels_kind o, sp_labels s), sp_extrap s).
+
+Definition spectrum_unpickler_obj {num} (t : reduce_args_obj num) : option (spectrum_obj num) :=
+  let '(data, mask, flag, (k, labels), extrap) := t in
+  option_map (fun s => mkObj s flag k) (mk_spectrum data (Some mask) false (truthy flag) labels extrap).
